@@ -151,6 +151,7 @@ fn consume_fwd<E, I: Iterator<Item = E>>(mut it: I, how: Consume) {
         Consume::All | Consume::AllBack => usize::MAX,
         Consume::Mixed(f, b) => f as usize + b as usize,
         Consume::DropNow | Consume::Forget => 0,
+        Consume::TakeForget(k) => k as usize,
     };
     for _ in 0..n {
         match it.next() {
@@ -161,7 +162,7 @@ fn consume_fwd<E, I: Iterator<Item = E>>(mut it: I, how: Consume) {
             None => break,
         }
     }
-    if how == Consume::Forget {
+    if matches!(how, Consume::Forget | Consume::TakeForget(_)) {
         std::mem::forget(it);
     }
 }
@@ -192,6 +193,15 @@ fn consume_de<E, I: DoubleEndedIterator<Item = E>>(mut it: I, how: Consume) {
         }
         Consume::DropNow => {}
         Consume::Forget => {
+            std::mem::forget(it);
+            return;
+        }
+        Consume::TakeForget(k) => {
+            for _ in 0..k {
+                if let Some(e) = it.next() {
+                    drop(e)
+                }
+            }
             std::mem::forget(it);
             return;
         }
